@@ -88,7 +88,18 @@ def build_go_tool(name, tags=None, race=False, suffix=""):
     os.makedirs(BIN, exist_ok=True)
     if not os.path.exists(os.path.join(src, "go.sum")) or name == "harness":
         shutil.copyfile(os.path.join(REPO, "go.sum"), os.path.join(src, "go.sum"))
-    cmd = ["go", "build"] + (["-race"] if race else []) + (["-tags", tags] if tags else []) + ["-o", out, "."]
+    extra = []
+    if name == "harness" and os.path.abspath(REPO) != "/repo":
+        # VERIF_REPO points at another checkout (a scratch worktree with a seeded change, a sweep's snapshot):
+        # same module file with the replace directive redirected
+        alt = os.path.join(RUN, "altmod")
+        os.makedirs(alt, exist_ok=True)
+        mod = open(os.path.join(src, "go.mod")).read().replace("=> /repo", "=> " + os.path.abspath(REPO))
+        with open(os.path.join(alt, "go.mod"), "w") as fh:
+            fh.write(mod)
+        shutil.copyfile(os.path.join(REPO, "go.sum"), os.path.join(alt, "go.sum"))
+        extra = ["-modfile=" + os.path.join(alt, "go.mod")]
+    cmd = ["go", "build"] + extra + (["-race"] if race else []) + (["-tags", tags] if tags else []) + ["-o", out, "."]
     rc, outp, dt = sh(cmd, cwd=src, env=GOENV, timeout=900)
     return rc, outp
 
@@ -309,7 +320,7 @@ def run_suite(pid, suite, tier, seed, workdir, log, replay=None):
         r["extra"]["race_detector"] = "on"
         r["extra"]["race_reports"] = len(reports)
         for b in reports[:5]:
-            sites = re.findall(r"^\s+(/repo/\S+:\d+)", b, flags=re.M)
+            sites = re.findall(r"^\s+(" + re.escape(os.path.abspath(REPO)) + r"/\S+:\d+)", b, flags=re.M)
             r["propfails"].append({"kind": "data-race", "desc": "race detector: unsynchronised conflicting accesses at " + ", ".join(dict.fromkeys(sites[:4])),
                                    "input": {"suite": label, "report": b.strip()[:3000]}})
     opsf = os.path.join(workdir, suite + ".ops")
@@ -456,8 +467,10 @@ def is_known(pid, fail, known):
 
 
 def write_evidence(pid, ev):
-    os.makedirs(os.path.join(ROOT, "evidence"), exist_ok=True)
-    with open(os.path.join(ROOT, "evidence", pid + ".json"), "w") as f:
+    # evidence/ describes runs against /repo itself; a run against another checkout (VERIF_REPO) keeps its own
+    evdir = os.path.join(ROOT, "evidence") if os.path.abspath(REPO) == "/repo" else os.path.join(RUN, "alt-evidence")
+    os.makedirs(evdir, exist_ok=True)
+    with open(os.path.join(evdir, pid + ".json"), "w") as f:
         json.dump(ev, f, indent=1, sort_keys=True)
         f.write("\n")
 
